@@ -55,6 +55,8 @@ pub fn deep_clone(db: &FixtureDatabase) -> FixtureDatabase {
         )),
         workspace_root: Arc::new(Mutex::new(db.workspace_root.lock().unwrap().clone())),
         plugin_fixture_files: Arc::new((*db.plugin_fixture_files).clone()),
+        // locks are per database: a copy starts with none held
+        file_analysis_locks: Arc::new(dashmap::DashMap::new()),
     }
 }
 
